@@ -5,6 +5,7 @@ import (
 	"context"
 	"encoding/json"
 	"fmt"
+	"io"
 	"math/rand"
 	"net/http"
 	"net/http/httptest"
@@ -656,30 +657,39 @@ func (c10) limits(sc core.Scenario, r *core.R) {
 						body = "{" + strings.Repeat(" ", size-2) + "}"
 					}
 				}
-				before := atomic.LoadInt64(&cnt.n)
-				rec := httptest.NewRecorder()
-				rpc.ServeHTTP(rec, httptest.NewRequest("POST", "/", strings.NewReader(body)))
-				ran := atomic.LoadInt64(&cnt.n) - before
-				reply := rec.Body.String()
-				r.Obs("limit_cases", 1)
-				r.AddKey(fmt.Sprintf("limit L=%d size=%d v=%d", L, size, variant))
-				var resp struct {
-					Result *int `json:"result"`
-					Error  *struct {
-						Code int `json:"code"`
-					} `json:"error"`
-				}
-				json.Unmarshal([]byte(reply), &resp)
-				if size > L {
-					if ran != 0 {
-						r.Violate("oversize-ran-handler", "limit %d: a body of %d bytes ran the handler", L, size)
+				for framing := 0; framing < 2; framing++ {
+					before := atomic.LoadInt64(&cnt.n)
+					rec := httptest.NewRecorder()
+					req := httptest.NewRequest("POST", "/", strings.NewReader(body))
+					if framing == 1 {
+						// no declared length (Transfer-Encoding: chunked): the limit is about the bytes of the body
+						req = httptest.NewRequest("POST", "/", struct{ io.Reader }{strings.NewReader(body)})
+						req.ContentLength = -1
+						req.TransferEncoding = []string{"chunked"}
 					}
-					if resp.Error == nil {
-						r.Violate("oversize-not-rejected", "limit %d: a body of %d bytes was not rejected with an error: %s", L, size, core.Trunc(reply, 120))
+					rpc.ServeHTTP(rec, req)
+					ran := atomic.LoadInt64(&cnt.n) - before
+					reply := rec.Body.String()
+					r.Obs("limit_cases", 1)
+					r.AddKey(fmt.Sprintf("limit L=%d size=%d v=%d framing=%d", L, size, variant, framing))
+					var resp struct {
+						Result *int `json:"result"`
+						Error  *struct {
+							Code int `json:"code"`
+						} `json:"error"`
 					}
-				} else if size >= len(base) {
-					if ran != 1 || resp.Result == nil {
-						r.Violate("within-limit-refused", "limit %d: a valid request of exactly %d bytes (<= limit) was refused or not executed (ran=%d): %s", L, size, ran, core.Trunc(reply, 160))
+					json.Unmarshal([]byte(reply), &resp)
+					if size > L {
+						if ran != 0 {
+							r.Violate("oversize-ran-handler", "limit %d: a body of %d bytes ran the handler", L, size)
+						}
+						if resp.Error == nil {
+							r.Violate("oversize-not-rejected", "limit %d: a body of %d bytes was not rejected with an error: %s", L, size, core.Trunc(reply, 120))
+						}
+					} else if size >= len(base) {
+						if ran != 1 || resp.Result == nil {
+							r.Violate("within-limit-refused", "limit %d: a valid request of exactly %d bytes (<= limit) was refused or not executed (ran=%d): %s", L, size, ran, core.Trunc(reply, 160))
+						}
 					}
 				}
 			}
